@@ -262,6 +262,19 @@ let dp (lines : string list) =
                        | Ok ix -> m_execute ix q | Err -> Err | Panic -> Panic | Hang -> Hang) in
               pr_result "HQ" (qid ^ sfx) r) [(".a", e1); (".b", e2)];
             go rest
+          | "QHOLE" ->
+            let qid = next c in let ds = next c in let w = writer_of (next c) in
+            let pre = (next c = "preload") in
+            let e = next_expr c in
+            if next c <> "GB" then failwith "expected GB";
+            let m = next_int c in
+            let gb = List.init m (fun _ -> next_str c) in
+            pr "QH %s.0 ERR-OR-OK\n" qid;
+            let q = { q_expr = e; q_group_by = gb } in
+            let r = (match get_index ds w pre with
+                     | Ok ix -> m_execute ix q | Err -> Err | Panic -> Panic | Hang -> Hang) in
+            pr_result "QH" (qid ^ ".1") r;
+            go rest
           | "QMOD" ->
             let qid = next c in let ds = next c in let w = writer_of (next c) in
             let pre = (next c = "preload") in
@@ -307,7 +320,7 @@ let dp (lines : string list) =
              | Err -> pr "SCHEMA %s ERR\n" qid | Panic -> pr "SCHEMA %s PANIC\n" qid | Hang -> pr "SCHEMA %s HANG\n" qid);
             pr_schema "SS" qid (spec_schema (Hashtbl.find datasets ds));
             go rest
-          | "REOPEN" -> go rest
+          | "REOPEN" | "KEYFEED" -> go rest
           | "RAWKEYS" ->
             (* the file format: value of key I, header keys, number of V keys *)
             let qid = next c in let ds = next c in let w = writer_of (next c) in
